@@ -93,3 +93,8 @@ package attachment
 //@   ensures C15.lens: headLen == 13 + int(data[4]) && bodyLen == int(be32(data, 9 + int(data[4])))
 //@   ensures C15.fields: h.FileNameLen == data[4] && h.DataOffset == be32(data, 5 + int(data[4])) && h.DataLen == be32(data, 9 + int(data[4]))
 // (h.Data starts 4 bytes early, at the length field; nothing reads it - the body is taken from the pending bytes by headLen/bodyLen)
+
+// a control frame is cut at the first 0x7e after its first byte; the rest stays pending
+//@ func (*PackageProgress).parseJT808Message
+//@   ensures C15.short: old(len(p.historyData)) < 10 ==> result0 == nil && result1 != nil
+//@   ensures C15.frame: result1 == nil ==> result0 != nil && exists(i, 1, old(len(p.historyData)), old(p.historyData[i]) == 0x7e && forall(j, 1, i, old(p.historyData[j]) != 0x7e) && len(p.historyData) == old(len(p.historyData)) - (i + 1) && ptr(p.historyData) == old(ptr(p.historyData)) + i + 1)
